@@ -6,6 +6,7 @@
   * `C04.spec <sup> <truth> <reports>`          — the decidable specification on the IMPLEMENTATION's
                                                   reports (range, lon/lat vs truth, xyz vs truth,
                                                   lon/lat vs xyz, unit length of derived xyz)
+  * `C04.centres <nodes> <conn>`                — normalised corner means (truth of unsupplied centres)
   * `C04.tol`                                   — echo of the tolerance constants
   * `C04.conv …`                                — the single conversions (for direct probes)
 -/
@@ -183,6 +184,12 @@ def handle (cmd : String) (args : List Int) : Option String :=
         let s ← supP; let t ← truthP; let rs ← list reportP; pure (s, t, rs)) args
       let fl := specFails sup t rs
       pure (if fl.isEmpty then "ok" else "fail " ++ ",".intercalate fl)
+  | "C04.centres" => do
+      -- the property's definition of a centre the source does not supply, evaluated by Lean from
+      -- the true node positions and the element's own real corners
+      let (nodes, c) ← run (do let n ← v3sP; let c ← connP; pure (n, c)) args
+      if !(decide (ConnOK nodes.length c)) then pure "bad-conn" else
+      pure (s!"{encV3s (c.faces.map (faceCentroid F nodes))} {encV3s (c.edges.map (edgeCentroid F nodes))}")
   | "C04.tol" => do
       let _ ← run eof args
       pure s!"{encFloat errTol} {encFloat eps} {encFloat snap} {encFloat F.closeTol}"
